@@ -12,6 +12,7 @@ import (
 	"io"
 	"path/filepath"
 	"sync"
+	"sync/atomic"
 	"syscall"
 	"time"
 	"unsafe"
@@ -241,7 +242,8 @@ type vPipeSink struct {
 	done   chan struct{}
 	drain  chan struct{}
 	once   sync.Once
-	closed bool // set by the harness once the writer has closed its end
+	closed bool  // set by the harness once the writer has closed its end
+	slow   int32 // 1: the consumer reads 512 bytes every 150 us
 }
 
 // newPipeSink creates the FIFO and opens its read end (raw, non-blocking). The consumer goroutine
@@ -262,8 +264,13 @@ func newPipeSink(path string) (*vPipeSink, error) {
 		<-s.drain
 		buf := make([]byte, 1<<16)
 		for {
+			rb := buf
+			if atomic.LoadInt32(&s.slow) == 1 {
+				rb = buf[:512] // a disk slower than the acquisition: the queue hovers around full
+				time.Sleep(150 * time.Microsecond)
+			}
 			s.mu.Lock()
-			n, _ := syscall.Read(s.fd, buf)
+			n, _ := syscall.Read(s.fd, rb)
 			if n > 0 {
 				s.got = append(s.got, buf[:n]...)
 			}
@@ -412,7 +419,8 @@ func vRunStallLayer2(c *vCase) bool {
 		sink.release()
 	}
 	// "during-flush"/"during-close": the disk stays stalled, with the queue full, until Flush (Close) has been called
-	releaseAt := vPick(r, "first-reject", "after-rejects", "partly-full", "during-flush", "during-close")
+	// "slow-drain": after the first rejection the disk comes back but stays slower than the producer for a few thousand records
+	releaseAt := vPick(r, "first-reject", "after-rejects", "partly-full", "during-flush", "during-close", "slow-drain", "slow-drain")
 	var accepted []int
 	accBytes := 0 // total size of the accepted records
 	id := 0
@@ -449,6 +457,14 @@ func vRunStallLayer2(c *vCase) bool {
 			break
 		}
 		if !released {
+			if releaseAt == "slow-drain" && rejects == 1 {
+				atomic.StoreInt32(&sink.slow, 1)
+				sink.release()
+				released = true
+				budget = i + 2000 + r.Intn(2000)
+				c.Cov("l2_slow_drain", 1)
+				continue
+			}
 			if (releaseAt == "first-reject" && rejects == 1) || (releaseAt == "after-rejects" && rejects >= 5+r.Intn(20)) || (releaseAt == "partly-full" && i == partlyAt) {
 				sink.release()
 				released = true
@@ -460,6 +476,7 @@ func vRunStallLayer2(c *vCase) bool {
 			}
 		}
 	}
+	atomic.StoreInt32(&sink.slow, 0)
 	stalledOp := ""
 	if !released {
 		if rejects > 0 && (releaseAt == "during-flush" || releaseAt == "during-close") {
